@@ -226,6 +226,8 @@ pub fn case_x(ctx: &mut Ctx, spec: &str) {
                 let mk = || match p[2] {
                     "-" => None,
                     r if r.starts_with('t') => Some(Response::text(r[1..].parse().unwrap(), "shown")),
+                    // the handler's request for the body, carried inside an `Error` (what `req.recv_body(M)?` does)
+                    r if r.starts_with('g') => Some(Response::get_body_and_reprocess(r[1..].parse().unwrap())),
                     r => Some(Response::new(r.parse().unwrap())),
                 };
                 let resp = mk();
@@ -254,7 +256,7 @@ pub fn run_c20x(ctx: &mut Ctx) {
     }
     for a in ["known", "unknown"] { for b in ["reader", "vec", "string"] { case_x(ctx, &format!("pend:{a}:{b}")); } }
     for ctor in ["server", "io", "string", "client", "new"] {
-        for resp in ["-", "500", "501", "503", "400", "404", "t500", "t400", "200"] {
+        for resp in ["-", "500", "501", "503", "400", "404", "t500", "t400", "200", "302", "g70000"] {
             for m in msgs { case_x(ctx, &format!("err:{ctor}:{resp}:{}", hex(m.as_bytes()))); }
         }
     }
